@@ -440,3 +440,28 @@ def check_literals(run, m, tag):
         e = M(("match", ("call", "str::parse::<i64>", ("param", "?x")), (("pvar", "Result::Ok", ("bind", "?i")), ("Some", ("ctor", "Number::Integer", ("var", "?i")))),
                (("pvar", "Result::Err", "_"), FLOAT)), t)
         run.ob(e is not None, "literal-helper|%s" % ev, "%s integer literal: Integer when it fits i64, otherwise the Float of the same text (None if that fails too)" % tag, f.key, T.show(t)[:300])
+
+
+def imaginary_suffix(run, m, pid):
+    """eval_complex: a literal directly followed by `i` is the imaginary literal (0, x) and the `i` is consumed;
+    otherwise the literal is real (x, 0).  Shared by C08 (i*i = -1 needs the imaginary literal) and C19 (literal clause,
+    and the printed form a+bi reads back)."""
+    from .props.common import where
+    w = where(m, "::tokenizer::Tokenizer")
+    for probe, nm in (("2)", "digit"), (".5)", "dot")):
+        r = m.lex.run(probe)
+        ok = False
+        if r.get("kind") == "scan":
+            t = r["term"]
+            # if let Some('i') = peek { next; Num(Complex::new(0.0, parse)) } else { Num(Complex::new(parse, 0.0)) }
+            hits = []
+            for s in subterms(t):
+                e = M(("if", ("iflet", ("pvar", "Option::Some", ("char", "i")), "_"), "?a", "?b"), s)
+                if e:
+                    ia = [x for x in subterms(e["?a"]) if M(("call", "Complex::new", ("lit", "0.0", "f64"), ("try", ("okopt", ("call", "str::parse::<f64>", "_")))), x) is not None]
+                    rb = [x for x in subterms(e["?b"]) if M(("call", "Complex::new", ("try", ("okopt", ("call", "str::parse::<f64>", "_"))), ("lit", "0.0", "f64")), x) is not None]
+                    consumes = any(M(("try", ("call", "Chars.next", "_")), x) is not None or M(("call", "Chars.next", "_"), x) is not None for x in subterms(e["?a"]))
+                    hits.append(bool(ia) and bool(rb) and consumes)
+            ok = bool(hits) and all(hits)
+        run.ob(ok, "lex|imaginary|%s" % nm, pid + " a literal directly followed by `i` is imaginary (0, x) and consumes the `i`; otherwise real (x, 0)", w, str(r.get("kind")),
+               sample={"literal": nm, "forms": ["<num>i -> Complex::new(0.0, x)", "<num> -> Complex::new(x, 0.0)"]})
